@@ -57,6 +57,10 @@ EXPLANATION = (
     "(vote counts, ranges of the correlations, sums of shares) are not "
     "decided.")
 
+EXPLANATION += (
+    ' Round 5: settings are forwarded at every call (R-FWD/parameter-forwarded).'
+)
+
 RULE_TEXT = (
     "one obligation per arithmetic relation (quotient, divisor, slice "
     "bound, constant, loop shape); non-trivial when the construct exists")
@@ -86,6 +90,10 @@ def check(ctx):
     check_runner_up_filter(ctx)
     from .C01 import check_backfill
     check_backfill(ctx)
+    # settings this property depends on are handed down every call
+    # chain, never left to a callee's default (sa/rules/forwarding.py)
+    from ..rules.forwarding import check_forwarding
+    check_forwarding(ctx, {'bootstrap_iteration', 'n_assignments'})
 
 
 def _choose_node(ctx):
